@@ -35,7 +35,7 @@ def handleIns (st : St) (op : String) (j : Json) : Option (D (St × Json)) :=
       let trivial := fitsTriviallyO S d p p ⟨[n], 0, 0⟩ == some true
       return (st, Json.mkObj [("ok", Json.bool (insertGuard S d p n && textStableC S)),
         ("boundary", Json.bool boundary), ("inside", Json.bool (insideTextGuard S d p [n])), ("marks", Json.bool marks),
-        ("trivial", Json.bool trivial), ("stripped", eNode (strippedAt S d p n)),
+        ("trivial", Json.bool trivial), ("stripped", eNode (strippedAt S d p n)), ("ts", Json.bool (textStableC S)),
         -- the hypothesis of `insertPoint_insert_succeeds_marked_partial`, on the model's Fitter
         ("fit", Json.bool (match replaceStep S d p p ⟨[n], 0, 0⟩ with
           | .ok (some (.replace f t sl false)) => f == p && t == p && sl == ⟨[strippedAt S d p n], 0, 0⟩
@@ -50,6 +50,7 @@ def handleIns (st : St) (op : String) (j : Json) : Option (D (St × Json)) :=
       return (st, Json.mkObj [("ok", Json.bool (closed && pass1 == some (some p) && fsize sl.content != 0 &&
           dropGuard S d p sl.content && textStableC S)),
         ("boundary", Json.bool boundary), ("inside", Json.bool (insideTextGuard S d p sl.content)), ("pass1", eOO pass1),
+        ("ts", Json.bool (textStableC S)), ("closed", Json.bool closed),
         ("trivial", Json.bool trivial)])
     -- `joinPoint_canJoin` + `canJoin_join_applies`: `can_join` at the join point, `joinGuard`, `TextStable`
     | "join" =>
